@@ -275,6 +275,35 @@ def handler : Handler := fun op j =>
           ("adj", jArr (if lin then (ys.getD []).map (fun y => vecOut n (r.adj (vcOf y)).get) else [])),
           ("eval_dt", jDtRes (r.evalDt md.inDt)),
           ("adj_dt", if lin then jDtRes (r.adjCallDt md.outDt) else Json.null)]))
+  | "conv" => do
+    -- Convolve(h_a,(n,),mode_a) (+|-) Convolve(h_b,...)  |  c*A  |  A/c   (1-d, same-class closed forms)
+    let mk (pre : String) : Option (ConvOp C) := do
+      let h ← (field? j (pre ++ "h")).bind getCxs?
+      let md ← fStr? j (pre ++ "mode")
+      let mode ← (match md with
+        | "full" => some Scico.LinOps.ConvMode.full
+        | "valid" => some Scico.LinOps.ConvMode.valid
+        | "same" => some Scico.LinOps.ConvMode.same
+        | _ => none)
+      some ⟨vecOf h, h.size, ← fNat? j (pre ++ "n"), mode, ← fDT? j (pre ++ "indt"), ← fDT? j (pre ++ "hdt")⟩
+    let a ← mk "a_"
+    let what ← fStr? j "what"
+    let xs ← (optField? j "xs" (getListOf? getCxs?))
+    let r : Option (Except Err (ConvOp C)) :=
+      match what with
+      | "add" => (mk "b_").map (ConvOp.addSub false a)
+      | "sub" => (mk "b_").map (ConvOp.addSub true a)
+      | "mul" => ((field? j "c").bind getScal?).map a.smul
+      | "div" => ((field? j "c").bind getScal?).map a.sdiv
+      | _ => none
+    match ← r with
+    | .error kd => some (err kd.name)
+    | .ok o =>
+      some (ok (jObj [
+        ("in_shape", jNs [o.n]), ("out_shape", jNs [o.outLen]), ("in_dtype", jS o.inDt.name),
+        ("out_dtype", jS o.outDt.name), ("h_dtype", jS o.hDt.name),
+        ("h", vecOut o.k o.h),
+        ("eval", jArr ((xs.getD []).map (fun x => vecOut o.outLen (o.eval (vecOf x)))))]))
   | "result_type" => do
     let a ← fDT? j "a"
     let k ← getKind? j
